@@ -421,7 +421,7 @@ func summaries(o *Obs, msgs []cocagit.CommitMessage, order []string) {
 		case "team":
 			o.Team = []TeamObs{}
 			for _, t := range cocagit.GetTeamSummary(msgs) {
-				o.Team = append(o.Team, TeamObs{t.EntityName, t.AuthorCount, t.RevsCount})
+				o.Team = append(o.Team, TeamObs{unquoteGit(t.EntityName), t.AuthorCount, t.RevsCount})
 			}
 		case "top":
 			o.Top = []TopObs{}
@@ -434,14 +434,14 @@ func summaries(o *Obs, msgs []cocagit.CommitMessage, order []string) {
 		case "age":
 			o.Age = []AgeObs{}
 			for _, a := range cocagit.CalculateCodeAge(msgs) {
-				o.Age = append(o.Age, AgeObs{a.EntityName, a.Age.Format("2006-01-02"), int(a.Age.Unix() / 86400)})
+				o.Age = append(o.Age, AgeObs{unquoteGit(a.EntityName), a.Age.Format("2006-01-02"), int(a.Age.Unix() / 86400)})
 			}
 		case "changelog":
 			o.Changelog = []LogObs{}
 			cl := cocagit.BuildChangeMap(msgs)
 			for typ, m := range cl {
 				for f, n := range m {
-					o.Changelog = append(o.Changelog, LogObs{typ, f, n})
+					o.Changelog = append(o.Changelog, LogObs{typ, unquoteGit(f), n})
 				}
 			}
 			sort.Slice(o.Changelog, func(i, j int) bool {
@@ -614,15 +614,49 @@ func cliTables(coca, dir, tmp string) CliTables {
 		return n
 	}
 	for _, r := range rows("-t", 3) {
-		t.Team = append(t.Team, TeamObs{Name: r[0], Revs: atoi(r[1]), Authors: atoi(r[2])})
+		t.Team = append(t.Team, TeamObs{Name: unquoteGit(r[0]), Revs: atoi(r[1]), Authors: atoi(r[2])})
 	}
 	for _, r := range rows("-a", 2) {
-		t.Age = append(t.Age, r[0])
+		t.Age = append(t.Age, unquoteGit(r[0]))
 	}
 	for _, r := range rows("-o", 3) {
 		t.Top = append(t.Top, TopObs{Name: r[0], Commits: atoi(r[1]), Lines: atoi(r[2])})
 	}
 	return t
+}
+
+// unquoteGit: a path with bytes outside printable ASCII is printed by git (default core.quotepath) as a C-style quoted
+// string ("na\303\257ve.txt"); the summaries name files by whatever the log printed, and the abstract identity of a file
+// is its path - this is the projection from the one to the other (the commit list itself is compared as printed)
+func unquoteGit(s string) string {
+	if len(s) < 2 || s[0] != '"' || s[len(s)-1] != '"' {
+		return s
+	}
+	in := s[1 : len(s)-1]
+	var out []byte
+	for i := 0; i < len(in); i++ {
+		if in[i] != '\\' || i+1 >= len(in) {
+			out = append(out, in[i])
+			continue
+		}
+		i++
+		switch c := in[i]; {
+		case c >= '0' && c <= '7' && i+2 < len(in):
+			v := 0
+			for k := 0; k < 3 && i+k < len(in); k++ {
+				v = v*8 + int(in[i+k]-'0')
+			}
+			out = append(out, byte(v))
+			i += 2
+		case c == 't':
+			out = append(out, '\t')
+		case c == 'n':
+			out = append(out, '\n')
+		default:
+			out = append(out, c)
+		}
+	}
+	return string(out)
 }
 
 func tailStr(s string, n int) string {
